@@ -1593,7 +1593,21 @@ def _opaque_str_fn(name):
     return NativeFn(name, f)
 
 
-LIBRARY["xml.sax.saxutils.escape"] = _opaque_str_fn("xml_escape")
+def _xml_escape(I, args, kwargs):
+    """xml.sax.saxutils.escape without the entities argument: its source is three str.replace calls"""
+    if len(args) != 1 or kwargs:
+        raise OutOfReach("escape() with an entities table")
+    d = args[0]
+    if isinstance(d, str):
+        return d.replace("&", "&amp;").replace(">", "&gt;").replace("<", "&lt;")
+    z = zs(d)
+    z = I.ctx.replace_all(z, z3.StringVal("&"), z3.StringVal("&amp;"))
+    z = I.ctx.replace_all(z, z3.StringVal(">"), z3.StringVal("&gt;"))
+    z = I.ctx.replace_all(z, z3.StringVal("<"), z3.StringVal("&lt;"))
+    return mk_str(z)
+
+
+LIBRARY["xml.sax.saxutils.escape"] = NativeFn("xml_escape", _xml_escape)
 LIBRARY["xml.sax.saxutils.unescape"] = _opaque_str_fn("xml_unescape")
 LIBRARY["six.moves.urllib_parse"] = None      # set below (module reference)
 
